@@ -627,7 +627,7 @@ def rule_payload_marshal_cells(ctx, rule_id, only=None):
             return f_.node if f_ is not None and name != "marshal" else None
         A, K, B = [Sym("positional")], {"k": Sym("value")}, Buf(0, 4)
         bad = []
-        cells = [(a_, k_, None) for a_ in (None, [], A) for k_ in (None, {}, K)] + [(None, None, B)]
+        cells = [(a_, k_, None) for a_ in (None, [], A) for k_ in (None, {}, K)] + [(None, None, B), (None, None, Buf(0, 0))]   # the last: a payload of zero octets
         for args, kwargs, payload in cells:
             env = {f"self.{r_}": None for r_ in reads if _is_data_attr(ctx, c, r_)}
             env.update({"self": Sym("message"), "self.args": args, "self.kwargs": kwargs, "self.payload": payload,
@@ -642,11 +642,15 @@ def rule_payload_marshal_cells(ctx, rule_id, only=None):
                 r = Tiny(env, default_call=lambda f_, a_, k2=None: Sym(f"<{f_}>"), model_types=True, model_strings=True, opaque_globals=True, inline_self=inl).run(body)
             except AnalysisError as e:
                 raise AnalysisError(f"[{rule_id}] {c.name}.marshal outside the modelled subset: {e}")
-            tag = f"args={args!r}, kwargs={kwargs!r}" + (", payload given" if payload is not None else "")
+            tag = f"args={args!r}, kwargs={kwargs!r}" + ((", payload given" if len(payload) else ", payload of zero octets given") if payload is not None else "")
             if r[0] != "return" or not isinstance(r[1], list) or len(r[1]) < base:
                 bad.append(f"{tag}: marshal {r[0]} {str(r[1])[:60]}")
                 continue
             tail = r[1][base:]
+            if payload is not None and "self.enc_algo" in env:
+                opts = [x_ for x_ in r[1][:base] if isinstance(x_, dict)]
+                if not (opts and opts[0].get("enc_algo") == "cryptobox"):
+                    bad.append(f"{tag}: the options/details emitted do not name the payload encoding (enc_algo): {opts[:1]}")
             # ... and parse() of the same class must read the emitted tail back into the same arguments (abstract round trip)
             from .c08 import parse_on, doc_prefix
             pr, made = parse_on(ctx, m, c, doc_prefix(ctx, m, c, fmts) + list(tail), rule_tag=rule_id)
